@@ -369,7 +369,7 @@ class Buffer:
         if self.length != another.length:
             raise ValueError('buffers must be of the same length')
         if another.padding != self.padding:
-            another = another.pad(self.padding)
+            another = another.pad(self.padding, inplace=False)
 
         bitwise_and_content: bytes = b''
         for (self_chunk, another_chunk) in  zip(iter(self.content), iter(another.content)):
@@ -382,7 +382,7 @@ class Buffer:
         if self.length != another.length:
             raise ValueError('buffers must be of the same length')
         if another.padding != self.padding:
-            another = another.pad(self.padding)
+            another = another.pad(self.padding, inplace=False)
 
         bitwise_or_content: bytes = b''
         for (self_chunk, another_chunk) in  zip(iter(self.content), iter(another.content)):
@@ -395,7 +395,7 @@ class Buffer:
         if self.length != another.length:
             raise ValueError('buffers must be of the same length')
         if another.padding != self.padding:
-            another = another.pad(self.padding)
+            another = another.pad(self.padding, inplace=False)
 
         bitwise_xor_content: bytes = b''
         for (self_chunk, another_chunk) in  zip(iter(self.content), iter(another.content)):
